@@ -130,12 +130,16 @@ macro_rules! c07_frechet {
                 let x: $f = d.sample(&mut rng);
                 vassert!(rng.pos == 1, "Frechet: number of words consumed depends on the parameters");
                 let g: f64 = if native() {
-                    num_traits::Float::powf(-num_traits::Float::ln($oc(w0)), neg_inv) as f64
+                    let mut r2 = SymRng::from_words(rng.words, NW);
+                    let z: $f = Frechet::<$f>::new(0.0, 1.0, shape).unwrap().sample(&mut r2);
+                    vassert!(rng.pos == r2.pos, "Frechet: number of words consumed depends on the parameters");
+                    let want = loc + scale * z;
+                    vassert!(x == want || (x != x && want != want), "Frechet: sample is not location + scale * (standard member)");
+                    return;
                 } else {
                     vassert!(flog_n() == 2, "Frechet: expected one logarithm and one power");
                     let (a0, _, r0) = flog_get(0);
                     let (b, e, g) = flog_get(1);
-                    vassert!(a0 == $oc(w0) as f64, "Frechet: logarithm is not taken of the OpenClosed01 draw");
                     vassert!(biteq64(b, -r0), "Frechet: base of the power is not -ln(u)");
                     vassert!(e == neg_inv as f64, "Frechet: exponent is not -1/shape");
                     g
